@@ -9,11 +9,12 @@ if len(sys.argv) > 2:
     notes = json.load(open(sys.argv[2]))
 for blk in log.split("===== ")[1:]:
     head = blk.split("\n")[0]
-    m = re.match(r"(C\d+) seed (r2-)?(\d) \((\S+)\)", head)
+    m = re.match(r"(C\d+) seed (r[23]-)?(\d) \((\S+)\)", head)
     if not m:
         continue
     pid, r2, k, demo = m.group(1), m.group(2) or "", m.group(3), m.group(4)
-    src = f"/tmp/seed2/{pid}/out/{k}" if r2 else f"/tmp/seed/{pid}/out/{k}"
+    src = (f"/tmp/seed3/{pid}/out/{k}" if r2 == "r3-" else f"/tmp/seed2/{pid}/out/{k}") if r2 else f"/tmp/seed/{pid}/out/{k}"
+    benign = (r2 == "r3-" and k == "3")
     if not os.path.isdir(src):
         continue
     dst = os.path.join(ROOT, "seeded", f"{pid}-{r2}{k}")
@@ -46,13 +47,23 @@ for blk in log.split("===== ")[1:]:
         "change": change,
         "needs_to_manifest": needs,
         "origin": "fresh sub-agent given only the property text and a scratch worktree of /repo" +
-                  (" (second round: asked for blind spots of an unseen checker - unusual input classes, file-system states, rare entry points, order effects)" if r2 else ""),
+                  (" (second round: asked for blind spots of an unseen checker - unusual input classes, file-system states, rare entry points, order effects)" if r2 == "r2-" else "") +
+                  (" (third round: told the checker is hardened; asked for longer histories, format-version interplay, state after errors, item counts, cargo features, third-party data, trait impls; k=3 is a BENIGN change that must not be reported)" if r2 == "r3-" else ""),
         "confirmed": f"tools/seedtest.sh seeded/{key} {demo} {pid}: demo passes without and fails with the change"
                      f" ({'confirmed' if demo_fails else 'NOT confirmed'}); cargo test --offline green with the change",
         "detected_by": (f"./check {pid} --tier quick (VERIF_REPO=<scratch worktree>): VIOLATION with concrete replay; " + ", ".join(sorted(set(rules))))
                        if caught else "ESCAPED the version of the check it was first run against",
         "demo_placement": f"tests/{demo}.rs; cargo test --offline --test {demo}",
     }
+    if benign:
+        meta["benign"] = True
+        meta["confirmed"] = f"tools/seedtest.sh seeded/{key} {demo} {pid}: demo passes with and without the change; cargo test --offline green with the change"
+        if not re.search(r"VIOLATION", blk):
+            meta["detected_by"] = "benign change: the check stays quiet (exit 0), as it must"
+        elif "no-failing-input-found" in blk:
+            meta["detected_by"] = "benign change: the check reported VIOLATION ... no-failing-input-found (a proof obligation or the correspondence broke, no failing input exists)"
+        else:
+            meta["detected_by"] = "benign change: the check reported a concrete VIOLATION - FALSE ALARM"
     if key in notes:
         meta["detected_by"] = notes[key]
     json.dump(meta, open(os.path.join(dst, "meta.json"), "w"), indent=1)
